@@ -191,7 +191,7 @@ def alias_obligations(ctx, rep, rule="R10f"):
         return next(iter(outs)) if len(outs) == 1 else ("?", "paths")
 
     aliases = ["/dir/.", "/.", "/a/b/.", "dir/.", ".", "/dir/./", "/dir//", "/dir/sub/..", "/dir/./sub"]
-    plain = ["/dir", "/", "/dir/.hidden", "/dir/a.b", "/dir/sub"]
+    plain = ["/dir", "/", "/dir/.hidden", "/dir/a.b", "/dir/sub", "/a", "/dir/x", "/7", "/dir/a b", "/dir/caf\udce9", "/dir/x.", "/dir/-", "/d/~"]
     problems, n = [], 0
     for word in aliases + plain:
         normd = evaluate(sn, pb, env={sn_params[0]: Const(word)})
